@@ -170,6 +170,11 @@ Theorem C20_mixed_delays : forall b s v fp e, mixed_outcome b s v fp e = Ok -> S
 Proof. exact mixed_ok_supported. Qed.
 Print Assumptions C20_mixed_delays.
 
+(* ... and so is the same mixture of matrix connections of a population (Connectivity API), in either order *)
+Theorem C20_mixed_population_delays : forall b s v fp e, pop_outcome b s v fp e = Ok -> Supported (mixed_config b s v e).
+Proof. exact pop_ok_supported. Qed.
+Print Assumptions C20_mixed_population_delays.
+
 (* operator graph of a node: any number of operators *)
 Theorem C20_cycle_rejected : forall ops S, CyclicSet (map oname ops) (op_edges ops) S -> check_op_graph ops = Err EPyRates.
 Proof. exact cyclic_op_graph_rejected. Qed.
@@ -199,6 +204,8 @@ Example C20_nonvacuous :
   outcome (mkc BJax SScipy true DNone true true EJac) = Err ENotImpl /\
   mixed_outcome BJax SEuler false true ERun = Err ENotImpl /\ mixed_outcome BJax SEuler false false ERun = Err ENotImpl /\
   mixed_outcome BDefault SEuler false true ERun = Ok /\
+  pop_outcome BJax SHeun true true ERun = Err ENotImpl /\ pop_outcome BJax SHeun true false EFunc = Err ENotImpl /\
+  pop_outcome BJax SDiffrax true true ERun = Ok /\
   node_value F1_net ["all"; "ob"; "r"] = Err EPyRates /\ node_value F1_net ["all"; "oa"; "r"] = Ok /\
   check_vname "q_buffer_1" = Err EPyRates /\ check_vname "buffer" = Ok /\
   toposort ["c"; "b"; "a"] [("a", "b"); ("b", "c")] = Some ["a"; "b"; "c"] /\
